@@ -37,7 +37,8 @@ COND_ATTRS = ["flatten", "filter", "from_spec", "from_json_like", "test", "test_
 PATH_ATTRS = ["simplify", "to_part_specs", "to_spec", "to_json_like", "parts", "is_concrete", "from_str", "from_spec",
               "from_part_specs", "get_data", "resolve_implicit_types", "source_data", "_copy_with_datum_type",
               "is_spec_like", "escape_spec_like", "__len__", "__repr__", "__class__", "foo", "lenght", "firstt", "keys"]
-TYPOS = ["equal_too", "eqq", "less", "greater_than_", "in__", "keys", "contains", "truth", "isinstance", "not", ""]
+TYPOS = ["equal_too", "eqq", "less", "greater_than_", "in__", "keys", "contains", "truth", "isinstance", "not", "",
+         "falſy", "leß_than", "iſ_instance", "keyſ_contain", "ı̇n", "ﬁlter", "truthy\u200b"]
 
 CATALOGUE = [
     "unknown-datum", "unknown-preproc", "inapplicable-preproc", "typo-callable", "other-family-callable",
@@ -137,7 +138,7 @@ def gen_a(r, klass):
             val = r.choice(["int", ["int", "str"], None])
         return place_cond({f"{kind}.{pre}{sp.rcase(a)}": val})
     if klass == "unknown-type-name":
-        bad = r.choice(["foo", "integer", "string", "none", "nonetype", "", "tuple", "number", 3, None, 2.5])
+        bad = r.choice(["foo", "integer", "string", "none", "nonetype", "", "tuple", "number", 3, None, 2.5, "ſtr", "ﬂoat", "İnt", "lıst"])
         c = r.pct()
         if c < 35:
             return place_cond({f"value.{r.choice(['dtype', 'type'])}.{r.choice(['equal_to', 'eq', 'in'])}": bad if r.coin() else [bad, "int"]})
@@ -147,7 +148,7 @@ def gen_a(r, klass):
     path = G.guided_path(r, d, max_len=2, meaningful=True)
     pspec_parts = [SP.part_spec(p, sp) for p in path.parts]
     if klass == "unknown-path-suffix":
-        suf = r.choice(["foo", "lengthh", "typ", "mapkeys", "values", "one", "second", "", "1"])
+        suf = r.choice(["foo", "lengthh", "typ", "mapkeys", "values", "one", "second", "", "1", "none", "None", "NONE", "fırst", "laſt"])
         key = r.choice([f"path.{suf}", f"path.first.{suf}", f"path.{suf}.length"])
         return place_path({key: pspec_parts})
     if klass == "attribute-as-path-suffix":
